@@ -30,7 +30,7 @@ import BioCantor.Gen.Tables
 import BioCantor.Spec.Gff
 namespace BioCantor.Model.Gff
 open BioCantor
-open BioCantor.Spec.Gff (Str Quals SCds STx SGene SFeat SFc SChild SPar SColl strLt strLe)
+open BioCantor.Spec.Gff (Str Quals SCds STx SGene SFeat SFc SChild SPar SColl GColl strLt strLe)
 
 /-! ### escaping (rows.py:149-181) -/
 
@@ -422,16 +422,10 @@ def toGffLines (c : SColl) (chromRel : Bool) (raise : Bool) : Except Err (List S
   whether it has a sequence-chunk ancestor (= `coll.par` is a chunk).  The result is the list of printed lines
   (`print` terminates each with LF). -/
 
-structure GColl where
-  coll : SColl
-  /-- `str(collection.sequence)`; `none` when the collection has no sequence -/
-  seq : Option Str
-  deriving Repr, DecidableEq, Inhabited
-
-def GColl.isChunk (g : GColl) : Bool := match g.coll.par with | .chunk _ _ => true | _ => false
+def gIsChunk (g : GColl) : Bool := match g.coll.par with | .chunk _ _ => true | _ => false
 
 /-- `collection.sequence_name` as `str.format` / the sort key sees it -/
-def GColl.name (g : GColl) : Str := match g.coll.seqName with | some s => s | none => ['N', 'o', 'n', 'e']
+def gNameM (g : GColl) : Str := match g.coll.seqName with | some s => s | none => ['N', 'o', 'n', 'e']
 
 def headerLine : Str := "##gff-version 3".toList
 def fastaHeaderLine : Str := "##FASTA".toList
@@ -450,21 +444,21 @@ def chunksOf (n : Nat) (fuel : Nat) (s : Str) : List Str :=
     since 5f9d162 the record is named like column 1, not like the chunk) -/
 def fastaRecord (name : Str) (seq : Str) : List Str := ('>' :: name) :: chunksOf 60 seq.length seq
 
-def sortByName (cs : List GColl) : List GColl := cs.mergeSort fun a b => strLe a.name b.name
+def sortByName (cs : List GColl) : List GColl := cs.mergeSort fun a b => strLe (gNameM a) (gNameM b)
 
 /-- `collection_to_gff3(collections, handle, add_sequences, ordered, chromosome_relative_coordinates,
     raise_on_reserved_attributes)`: the printed lines, or the first exception -/
 def gff3Lines (cs : List GColl) (addSeq ordered chromRel raise : Bool) : Except Err (List Str) := do
-  if chromRel && addSeq && cs.any (·.isChunk) then throw .Export
+  if chromRel && addSeq && cs.any gIsChunk then throw .Export
   let cs := if ordered then sortByName cs else cs
   let regions ← (if addSeq then
       cs.mapM fun g => match g.seq with
         | none => (.error .Export : Except Err Str)
-        | some s => .ok (regionLine g.name s.length)
+        | some s => .ok (regionLine (gNameM g) s.length)
     else .ok [])
   let rows ← cs.mapM fun g => toGffLines g.coll chromRel raise
   let fasta := if addSeq then
-      fastaHeaderLine :: cs.flatMap fun g => match g.seq with | some s => fastaRecord g.name s | none => []
+      fastaHeaderLine :: cs.flatMap fun g => match g.seq with | some s => fastaRecord (gNameM g) s | none => []
     else []
   pure (headerLine :: regions ++ rows.flatten ++ fasta)
 
